@@ -120,6 +120,66 @@ def do_call(spec, cache):
                     ws[idx].write(rec)
                 ws[idx].flush()
             return {"ok": [hashlib.sha1(f.getvalue()).hexdigest() for f, w_ in zip(fos, ws) if w_ is not None]}
+        if op == "reuse_after_fault":
+            # a write that fails INSIDE a hinted record of a union (after the branch was chosen), then the same datum object
+            # is handed to a later call: the datum is as it was, and the later call does what it does in a fresh interpreter
+            v = spec["value"]
+            before = canon(to_wire(v))
+            fault = spec.get("fault")
+            if fault == "strict-extra-key":
+                try:
+                    schemaless_writer(io.BytesIO(), copy.deepcopy(s), v, strict=True)
+                except Exception:
+                    pass
+            elif fault == "overflow":
+                try:
+                    schemaless_writer(io.BytesIO(), copy.deepcopy(spec["narrow_schema"]), v)
+                except Exception:
+                    pass
+            elif fault == "stream-full":
+                class Full(io.RawIOBase):
+                    def __init__(self, room):
+                        self.room = room
+
+                    def writable(self):
+                        return True
+
+                    def write(self, b):
+                        self.room -= len(b)
+                        if self.room < 0:
+                            raise OSError("no space left on device")
+                        return len(b)
+                try:
+                    schemaless_writer(Full(spec.get("room", 3)), copy.deepcopy(s), v)
+                except Exception:
+                    pass
+            intact = canon(to_wire(v)) == before
+            fo = io.BytesIO()
+            schemaless_writer(fo, copy.deepcopy(s), v)
+            return {"ok": [intact, fo.getvalue().hex()]}
+        if op == "reader_schema_reuse":
+            # a schema parsed once and reused: first as the READER schema of a binary read, then by other calls
+            P = parse_schema(copy.deepcopy(s))
+            before = digest(P)
+            if not spec.get("skip_read"):
+                fo = io.BytesIO()
+                schemaless_writer(fo, copy.deepcopy(spec["writer"]), spec["written"])
+                schemaless_reader(io.BytesIO(fo.getvalue()), copy.deepcopy(spec["writer"]), P)
+                cf = io.BytesIO()
+                fastavro.writer(cf, copy.deepcopy(spec["writer"]), [spec["written"]])
+                list(fastavro.reader(io.BytesIO(cf.getvalue()), P))
+            out = [digest(P) == before]
+            for name, fn in (("writer", lambda: hashlib.sha1((lambda f: (fastavro.writer(f, P, [spec["full"]], sync_marker=b"0123456789abcdef"), f.getvalue())[1])(io.BytesIO())).hexdigest()),
+                             ("json_writer", lambda: (lambda f: (fastavro.json_writer(f, P, [spec["full"]]), f.getvalue())[1])(io.StringIO())),
+                             ("validate-partial", lambda: bool(validate(spec["partial"], P, raise_errors=False))),
+                             ("expand", lambda: json.dumps(fastavro.schema.expand_schema(P), sort_keys=True, default=repr)),
+                             ("write-partial", lambda: (lambda f: (schemaless_writer(f, P, spec["partial"]), f.getvalue().hex())[1])(io.BytesIO())),
+                             ("canon", lambda: to_parsing_canonical_form(P))):
+                try:
+                    out.append([name, fn()])
+                except Exception as e:  # noqa
+                    out.append([name, "ERR:" + exc_class(e)])
+            return {"ok": out}
         if op == "read_container":
             rs = copy.deepcopy(spec["reader"]) if spec.get("reader") is not None else None
             return {"ok": [canon(to_wire(x)) for x in fastavro.reader(io.BytesIO(bytes.fromhex(spec["bytes"])), rs)]}
@@ -342,6 +402,48 @@ def directed_histories(run, tier, seed, pristine):
                               "tags": ["two-writers"]},
                              "two writers alive at once: the files written depend on the order in which the writers were constructed / used", kind="oracle")
                     break
+    # (e) a failed write inside a hinted record, then the same datum object again
+    ua = [{"type": "record", "name": "demo.A", "fields": [{"name": "x", "type": "double"}, {"name": "y", "type": "int"}]},
+          {"type": "record", "name": "demo.B", "fields": [{"name": "x", "type": "double"}, {"name": "y", "type": "int"}]}]
+    narrow = [{"type": "record", "name": "demo.A", "fields": [{"name": "x", "type": "float"}, {"name": "y", "type": "int"}]},
+              {"type": "record", "name": "demo.B", "fields": [{"name": "x", "type": "float"}, {"name": "y", "type": "int"}]}]
+    for shape in ("top", "field", "array"):
+        if shape == "top":
+            sch, nsch, wrap = ua, narrow, (lambda d: d)
+        elif shape == "field":
+            sch = {"type": "record", "name": "demo.W", "fields": [{"name": "id", "type": "long"}, {"name": "u", "type": ua}]}
+            nsch = {"type": "record", "name": "demo.W", "fields": [{"name": "id", "type": "long"}, {"name": "u", "type": narrow}]}
+            wrap = lambda d: {"id": 1, "u": d}
+        else:
+            sch, nsch, wrap = {"type": "array", "items": ua}, {"type": "array", "items": narrow}, (lambda d: [d])
+        for fault, datum in (("strict-extra-key", {"-type": "demo.B", "x": 1.5, "y": 2, "zz": 0}), ("overflow", {"-type": "demo.B", "x": 1e300, "y": 2}),
+                             ("stream-full", {"-type": "demo.B", "x": 1.5, "y": 2})):
+            spec = {"op": "reuse_after_fault", "schema": sch, "narrow_schema": nsch, "value": wrap(datum), "fault": fault, "room": 5}
+            got = do_call(copy.deepcopy(spec), {})
+            fresh = pristine.call(copy.deepcopy(dict(spec, fault=None)))
+            run.cov["evaluations"] += 1
+            run.tag("directed:reuse-after-fault")
+            if got != fresh:
+                run.fail({"schema": sch, "value": repr(wrap(datum)), "fault": fault, "after_failed_call": got, "fresh": fresh, "tags": ["reuse-after-fault", shape]},
+                         "after a write that failed midway the datum handed to it is changed, or a later call with the same datum differs from "
+                         "the same call made first in a fresh interpreter", kind="oracle")
+    # (f) a parsed schema reused: reader schema of a binary read first, then writer / validate / expand / canonical form
+    rsch = {"type": "record", "name": "demo.Doc", "fields": [
+        {"name": "id", "type": "int"}, {"name": "raw", "type": "bytes", "default": "ab"},
+        {"name": "sig", "type": {"type": "fixed", "name": "demo.Sig", "size": 2}, "default": "xy"},
+        {"name": "sig2", "type": "demo.Sig", "default": "zw"}, {"name": "opt", "type": ["bytes", "null"], "default": "q"},
+        {"name": "inner", "type": {"type": "record", "name": "demo.In", "fields": [{"name": "b", "type": "bytes", "default": "i"}]}, "default": {}}]}
+    wsch = {"type": "record", "name": "demo.Doc", "fields": [{"name": "id", "type": "int"}]}
+    spec = {"op": "reader_schema_reuse", "schema": rsch, "writer": wsch, "written": {"id": 5},
+            "full": {"id": 1, "raw": b"r", "sig": b"12", "sig2": b"34", "opt": None, "inner": {"b": b"z"}}, "partial": {"id": 2}}
+    got = do_call(copy.deepcopy(spec), {})
+    fresh = pristine.call(copy.deepcopy(dict(spec, skip_read=True)))
+    run.cov["evaluations"] += 1
+    run.tag("directed:reader-schema-reuse")
+    if got != fresh:
+        run.fail({"schema": rsch, "after_use_as_reader_schema": got, "fresh": fresh, "tags": ["reader-schema-reuse"]},
+                 "a parsed schema used as the reader schema of a read is changed by it, or later calls with it differ from the same calls made "
+                 "first in a fresh interpreter", kind="oracle")
     for h in range(scale(tier, 6)):
         w = {"type": "record", "name": "Old", "fields": [{"name": "a", "type": "int", "default": 10}, {"name": "b", "type": "string", "default": "xy"}]}
         fo = io.BytesIO()
